@@ -3,15 +3,28 @@ from checks._chain_check import run_chain_check
 PID = "C02"
 ENGINES = ["chain"]
 
+NEED = {
+    "ProcessBlock:ok_head": 150, "ProcessBlock:ok_fork": 40, "rewound:block": 40,
+    "why:input_not_unspent": 20, "why:after_rewind:input_not_unspent": 10,
+    "Reindex:ok": 40, "reindex:lost_entries_of_unspent_outputs": 30, "reindex:several_heights_to_assign": 20,
+    "reindex:stale_entries": 20, "reindex:header_head_on_another_fork": 3,
+    "ResetHead:ok": 10, "Probe:ok": 10, "Compact:ok": 3,
+    "query:validate_inputs_ok": 30, "query:validate_inputs_err": 10,
+    "enum:bounded_scan_cuts": 500, "enum:paged_walk_4plus": 500,
+}
+
 
 def run(tier, replay):
     return run_chain_check(PID, tier, replay,
-                           mc_quick=["mc/MC_Chain_utxo_q", "mc/MC_Chain_reset_q"], mc_thorough=["mc/MC_Chain_utxo", "mc/MC_Chain_reset_q"],
-                           sim_cfg="mc/MC_Chain_simemit", n_quick=120, n_thorough=1600,
-                           focus="UnspentIsReplay / IndexConsistent / SpentIdxInv / RewindInv (also across reset_chain_head and compaction); replay compares get_unspent of every commitment ever minted (with creation height and position round trip), leaf count, enumeration count, after every delivery; twin roots at the end",
-                           extra_sims=[("mc/MC_Chain_simemit_respend", 80, 800),
+                           mc_quick=["mc/MC_Chain_utxo_q", "mc/MC_Chain_reset_q", "mc/MC_Chain_reindex_q"],
+                           mc_thorough=["mc/MC_Chain_utxo", "mc/MC_Chain_reset_q", "mc/MC_Chain_reindex_q"],
+                           sim_cfg="mc/MC_Chain_simemit", n_quick=100, n_thorough=1600,
+                           focus="UnspentIsReplay / IndexConsistent / EnumInv / SpentIdxInv / RewindInv (also across reset_chain_head, compaction and restarts on a damaged output_pos index = Reindex); replay compares get_unspent of every commitment ever minted (with creation height and position round trip), leaf count, the enumeration API (content, MMR order, range proofs, pages of 1-3 resumed at the returned index, bounded by an ancestor's output MMR size; an Err is a mismatch), Chain::validate_inputs on probe transactions, after every delivery; twin roots at the end",
+                           extra_sims=[("mc/MC_Chain_simemit_respend", 70, 800),
                                        # operator resets (reset_chain_head to any stored header) and read-only rewind probes
                                        ("mc/MC_Chain_simemit_reset", 40, 400),
                                        # 85-block trunk, compaction, forks down to the horizon, probes at the horizon
                                        ("mc/MC_Chain_simemit_compact", 8, 40)],
-                           assumptions=["minted bodies: <=2 inputs from every commitment on any fork plus never-created ones, <=2 outputs incl. re-created commitments, value-balanced"])
+                           assumptions=["minted bodies: <=2 inputs from every commitment on any fork plus never-created ones, <=2 outputs incl. re-created commitments, value-balanced",
+                                        "Reindex damages the index of every commitment but the genesis output's (its rebuilt entry gets height 1, see report)"],
+                           need=NEED)
